@@ -186,6 +186,7 @@ class Oracle:
         self.tainted = {}      # container -> reason first seen
         self.origin = {}       # (dir kind, link name, target) -> who made it
         self.gone_finished = set()
+        self.forgiven = set()  # ended without a record and then met a node start (see node_started)
         self.reach = {}
         self.prev = Snapshot(node, self.ident)
         self._note_taint(self.prev)
@@ -201,13 +202,20 @@ class Oracle:
         for c in [c for c in self.tainted if c not in snap.apps]:
             if self.tainted.pop(c).startswith('finished'):
                 self.gone_finished.add(c)
+        for c in [c for c in self.node.down_recorded if c not in snap.apps]:
+            del self.node.down_recorded[c]
         for c in snap.apps:
             if c in self.gone_finished:
                 self.gone_finished.discard(c)
                 self._count('obs_finished_generation_reconfigured_after_'
                             'its_cleanup_completed')
-            if snap.flags[c]:
+            if snap.flags[c] or c in self.node.down_recorded:
+                # (down_recorded: the product's MonitorContainerDown action ran for the container and returned - the
+                # container finished, whatever the action left on disk)
                 self.tainted[c] = 'finished'
+            elif c not in self.tainted and c in self.node.ended and c not in self.forgiven:
+                # the container ended on its own (the environment knows: it ended it) without anything on disk saying so
+                self.tainted[c] = 'ended-without-record'
             elif c not in self.tainted and any(
                     t == c for t in snap.cleanup.values()):
                 self.tainted[c] = 'was-in-cleanup'
@@ -218,9 +226,12 @@ class Oracle:
         know, a configured container like any other - the statement's 'never started again' is about containers
         that finished, aborted or ran out of memory, and 'after a synchronisation the running links correspond to the
         cached manifests' asks for it to run.  Containers with such a record stay tainted."""
-        for c in [c for c, why in self.tainted.items() if why == 'was-in-cleanup']:
-            del self.tainted[c]
-            self._count('was_in_cleanup_taint_dropped_at_node_start')
+        for c in [c for c, why in self.tainted.items() if why in ('was-in-cleanup', 'ended-without-record')]:
+            if self.tainted.pop(c) == 'ended-without-record':
+                self._count('ended_without_record_taint_dropped_at_node_start')
+            else:
+                self._count('was_in_cleanup_taint_dropped_at_node_start')
+        self.forgiven |= set(self.node.ended)
 
     def before(self):
         """Observe the state right before a handler / actor step (cache
@@ -444,6 +455,11 @@ class Oracle:
                         % (inst, gen, c, inst, link, how(inst))))
             else:
                 self._count('i2_finished_generation_evaluations')
+                if not in_cleanup and prev.running.get(inst) != c:
+                    self._count('i2_finished_unlinked_generation_evaluations')
+                    if self.node.down_recorded.get(c) == 'exitinfo0':
+                        self._count('i2_finished_unlinked_generation_evaluations_service_ran_to_completion')
+                    self._count('i2_finished_unlinked_generation_evaluations_%s' % self.node.exit_kind.get(c, 'other'))
                 if link is not None and not (
                         link == c and prev.running.get(inst) == c):
                     out.append((
